@@ -124,10 +124,51 @@ def gen_cases(rng, ctx):
             rnd = untok(t[1]) if len(t) >= 2 and t[0] != "996" else []
             if quic:
                 rnd = [0] * 32
-            return line("c04_eval", rule_toks + [[1], [127, 0, 0, 1], rnd])
+            return line("c04_front", rule_toks + [[1], [127, 0, 0, 1], rnd])
 
         cases.append(Case(li, None, spec, kind="listener:" + ("quic" if quic else "tls"), nontrivial=bool(rules),
                           meta={"rules": rules, "peer": [127, 0, 0, 1], "front": True, "quic": quic}))
+    # the real binary reads the rules file from disk (text forms of networks and hex patterns) and applies it to real connections
+    def rule_toml(r, upper):
+        (act, ck, pk), c, pfx, msk = r
+        hx = (lambda b: bytes(b).hex().upper()) if upper else (lambda b: bytes(b).hex())
+        ls = ["[[rule]]"]
+        if ck == 2:
+            import ipaddress as _ip
+            ls.append('cidr = "%s/%d"' % (_ip.ip_address(bytes(c[2:])), c[1]))
+        if pk == 2:
+            ls.append('client_random_prefix = "%s"' % hx(pfx))
+        elif pk == 3:
+            ls.append('client_random_prefix = "%s/%s"' % (hx(pfx), hx(msk)))
+        ls.append('action = "%s"' % ("deny" if act else "allow"))
+        return "\n".join(ls) + "\n"
+
+    for i in range(24 if thorough else 8):
+        rules = []
+        for _ in range(rng.choice([0, 1, 2, 3])):
+            act = rng.below(2)
+            ck = rng.choice([0, 2, 2])
+            c = rng.choice(LOOP_NETS) if ck == 2 else []
+            pk = rng.choice([0, 3, 3, 2])
+            pm_, mm_ = [], []
+            if pk == 3:
+                k = rng.choice([1, 2])
+                pm_ = rng.bytes(k)
+                mm_ = [rng.choice([0x80, 0x01, 0xC0, 0x00]) for _ in range(k)]
+            elif pk == 2:
+                pm_ = rng.choice([[], rng.bytes(1)])
+            rules.append([[act, ck, pk], c, pm_, mm_])
+        text = "".join(rule_toml(r, i % 2) for r in rules)
+        li = line("bin_run", [[3, 0, 0], list(text.encode())])
+        rule_toks = [[len(rules), i % 2]] + sum(rules, [])
+
+        def spec_b(impl, rule_toks=rule_toks):
+            t = impl.split()
+            rnd = untok(t[1]) if len(t) >= 2 and t[0] != "996" else []
+            return line("c04_front", rule_toks + [[1], [127, 0, 0, 1], rnd])
+
+        cases.append(Case(li, None, spec_b, kind="process:rules-file", nontrivial=bool(rules),
+                          meta={"rules": rules, "peer": [127, 0, 0, 1], "front": True, "quic": False, "text": text}))
     n = 4000 if thorough else 700
     for i in range(n):
         rules = [gen_rule(rng) for _ in range(rng.choice([0, 1, 1, 2, 3, 4, 6]))]
@@ -166,6 +207,9 @@ def gen_cases(rng, ctx):
             cr = rng.bytes(rng.choice([0, 1, 16, 32, 40]))
         mk(rules, peer, cr, "random", upper=i % 2)
     return cases
+
+
+NEEDS_ENDPOINT_BIN = True
 
 
 def doc_oracle(meta):
@@ -236,7 +280,7 @@ def judge(case, impl, model, spec, ctx):
                 first_want = (want, rnd)
             if want is None:
                 continue
-            what = "real %s listener, peer 127.0.0.1, client random %s, rules %s" % ("QUIC" if quic else "TLS", bytes(rnd).hex() or "-", case.meta["rules"])
+            what = "%s %s listener, peer 127.0.0.1, client random %s, rules %s" % ("the endpoint binary's" if case.kind.startswith("process:") else "real", "QUIC" if quic else "TLS", bytes(rnd).hex() or "-", case.meta.get("text") or case.meta["rules"])
             if admitted and want[1] == 1:
                 out.append(("violation", "%s: the connection was admitted, the documented first-match verdict is deny" % what))
                 break
